@@ -288,7 +288,8 @@ RCP<const Basic> Parser::parse_numeric(const std::string &expr)
     char *lendptr;
     // if the expr is numeric, it's either a float or an integer
     errno = 0;
-    long l = std::strtol(startptr, &lendptr, 0);
+    // base 10: with base 0 a leading zero selects octal ("010" -> 8)
+    long l = std::strtol(startptr, &lendptr, 10);
 
     // Number is a long;
     if (expr.find_first_of('.') == std::string::npos
@@ -297,7 +298,10 @@ RCP<const Basic> Parser::parse_numeric(const std::string &expr)
             // No overflow in l
             return integer(l);
         } else {
-            return integer(integer_class(expr));
+            // without leading zeros: some integer_class backends read a
+            // leading 0 as an octal prefix
+            return integer(
+                integer_class(expr.substr(expr.find_first_not_of('0'))));
         }
     } else {
 #ifdef HAVE_SYMENGINE_MPFR
